@@ -188,7 +188,9 @@ def monitor(tr, case):
                 worst = []
             big = float(nh.max())
             diag = {"storage": "no_storage_between_years" if not bool(c["STORE_FOOD_BETWEEN_YEARS"]) else "storage_between_years",
-                    "size": "residual_below_half_a_percent_of_needs" if big <= 0.5 else "substantial",
+                    "size": ("residual_below_half_a_percent_of_needs" if big <= 0.5 else
+                             "residual_below_one_percent_in_the_single_month_of_a_one_month_shutoff" if (big <= 1.0 and len(fedm) == 1 and fedm[0] == 0 and case["opts"].get("shutoff") == "one_month_delayed_shutoff")
+                             else "substantial"),
                     "months_with_feed": fedm[:6] + fedm[-2:], "n_months_with_feed": len(fedm), "worst_months": worst[:6], "n_worst": len(worst),
                     "feed_only_before_first_worst_month": bool(worst and fedm and max(fedm) < worst[0]),
                     "nonincreasing": bool(np.all(np.diff(nh) <= 1e-6 * max(1.0, nh.max())))}
